@@ -23,7 +23,7 @@ fn dec_case(o: &mut Out, b: &[u8], fam: &str) {
     // intrinsic oracle: an accepted string re-serialises to the consumed prefix
     if let Ok((v, k)) = deserialize_partial::<VarInt>(b) {
         let s = serialize(&v);
-        o.direct(s[..] == b[..k], "varint: serialize(parse b) == b[..consumed]", hex(b), hex(&s), hex(&b[..k]));
+        o.direct(s[..] == b[..k], "varint: serialize(parse b) == b[..consumed]", format!("varint_dec {}", hex(b)), hex(&s), hex(&b[..k]));
     }
     let nt = r != "err" || b.len() >= 2;
     o.op(format!("varint_dec {}", hex(b)), nt);
@@ -33,7 +33,7 @@ fn enc_case(o: &mut Out, n: u64) {
     o.stat(&format!("enc.len{}", w.len()));
     // intrinsic oracle: decode(encode n) = n, consuming everything; with a suffix, exactly the suffix is left
     let back = deserialize_partial::<VarInt>(&w).map(|(v, k)| (v.0, k)).ok();
-    o.direct(back == Some((n, w.len())), "varint: decode(encode n) == (n, len)", n.to_string(), format!("{:?}", back), format!("{:?}", (n, w.len())));
+    o.direct(back == Some((n, w.len())), "varint: decode(encode n) == (n, len)", format!("varint_enc {}", n), format!("{:?}", back), format!("{:?}", (n, w.len())));
     o.op(format!("varint_enc {}", n), true);
 }
 
